@@ -96,7 +96,9 @@ impl BDDSet {
         let new: Rc<BDD<usize>> = self.bdd.borrow().clone();
         let _other = other.bdd.borrow().clone();
 
-        self.bdd.replace(self.env.and(new, _other));
+        // relative complement: the elements of `self` that are not in `other`
+        self.bdd
+            .replace(self.env.and(new, self.env.not(_other)));
 
         self
     }
